@@ -3,8 +3,10 @@
    [orc] is every logit, [r32] every float32 cast.  The interaction model has three switches
    (fixed_mask, guard_neg, guard_nan); all false = AS CODED in /repo, see Model/Train.v. *)
 From Coq Require Import ZArith List Bool QArith Qcanon.
-From Batchie Require Import Lib.Sexp Lib.Num Generated.Consts Model.Encode Model.Screen Model.Train Model.TrainScreen
-  Proofs.C04Train Proofs.C04Screen.
+From Coq Require Import Sorted.
+From Batchie Require Import Lib.Sexp Lib.Num Lib.PyRt Generated.Consts Generated.SrcTrain Model.Encode Model.Screen Model.Train
+  Model.TrainScreen Proofs.C04Train Proofs.C04Screen Proofs.C04Source Proofs.C04SourceC20.
+From Batchie Require Model.Synergy.
 Import ListNotations.
 Open Scope Z_scope.
 
@@ -214,4 +216,120 @@ Example C04_screen_example :
            = [Some (1 # 2)%Q; Some (3 # 4)%Q]
   | _, _ => False
   end.
+Proof. vm_compute. repeat split; reflexivity. Qed.
+
+(* ---- source-translation links: the functions below are re-translated from /repo into Gallina on every run
+   (Generated/SrcTrain.v, harness/py2gal.py with the configurations C04_* of harness/src_functions.py) and the
+   hand-written model of Model/Train.v is proved EQUAL to the translation for all inputs.  The wrapped legacy sampler
+   object is Train.legacy (its four Python lists and three defaultdict(list)); [legacy_of st] is the object holding the
+   training rows st: the four lists are the columns of st, each index dictionary lists every id of its column in order
+   of first occurrence with the ascending row numbers that hold it. ---- *)
+
+(* BayesianModel.add_observations, for EVERY model class (inner = its _add_observations, any state type) *)
+Theorem C04_model_is_source_add_observations :
+  forall (S : Type) (inner : S -> list trow -> result S) (self : S) (rows : list trow),
+  src_add_observations S inner self rows = add_observations (inner self) rows.
+Proof. exact src_add_observations_is_model. Qed.
+Print Assumptions C04_model_is_source_add_observations.
+
+(* LegacySparseDrugComboImpl._update and LegacySparseDrugComboInteractionImpl._update (and n_obs) *)
+Theorem C04_model_is_source_legacy_update : forall st y cl d1 d2,
+  src_legacy_update (legacy_of st) y cl d1 d2 = Ok (legacy_of (st ++ [mk_trip y cl d1 d2])) /\
+  src_legacy_int_update (legacy_of st) y cl d1 d2 = Ok (legacy_of (st ++ [mk_trip y cl d1 d2])) /\
+  src_legacy_n_obs (legacy_of st) = Ok (Z.of_nat (length st)) /\
+  src_legacy_int_n_obs (legacy_of st) = Ok (Z.of_nat (length st)).
+Proof.
+  intros st y cl d1 d2.
+  exact (conj (src_legacy_update_is_model st y cl d1 d2) (conj (src_legacy_int_update_is_model st y cl d1 d2)
+              (src_legacy_n_obs_is_model st))).
+Qed.
+Print Assumptions C04_model_is_source_legacy_update.
+
+(* any number of _update calls on a fresh object: the lists are the columns of the calls and the index dictionaries
+   are the positions of each id (one entry per id, in order of first occurrence; ascending row numbers from 0) *)
+Theorem C04_model_is_source_legacy_index_invariant : forall calls : list trip,
+  (res_fold (fun w t => src_legacy_update w (tr_y t) (tr_cl t) (tr_d1 t) (tr_d2 t)) calls (legacy_of []) = Ok (legacy_of calls)) /\
+  (res_fold (fun w t => src_legacy_int_update w (tr_y t) (tr_cl t) (tr_d1 t) (tr_d2 t)) calls (legacy_of []) = Ok (legacy_of calls)) /\
+  let w := legacy_of calls in
+  lg_y w = map tr_y calls /\ lg_cline w = map tr_cl calls /\ lg_dd1 w = map tr_d1 calls /\ lg_dd2 w = map tr_d2 calls /\
+  lg_cline_idxs w = index_dict (lg_cline w) /\ lg_dd1_idxs w = index_dict (lg_dd1 w) /\ lg_dd2_idxs w = index_dict (lg_dd2 w) /\
+  (forall col k l, In (k, l) (index_dict col) <-> In k col /\ l = positions k col) /\
+  (forall col, NoDup (map fst (index_dict col))) /\
+  (forall col k j, In j (positions k col) <-> 0 <= j /\ nth_error col (Z.to_nat j) = Some k) /\
+  (forall col k, StronglySorted Z.lt (positions k col)).
+Proof. exact legacy_index_invariant. Qed.
+Print Assumptions C04_model_is_source_legacy_index_invariant.
+
+(* SparseDrugCombo._add_observations, on every reachable wrapped object *)
+Theorem C04_model_is_source_sdc_add_observations : forall orc r32 (st : list trip) (rows : list trow),
+  src_sdc_add_observations orc r32 (legacy_of st) rows = dor t <- sdc_inner orc r32 st rows; Ok (legacy_of t).
+Proof. exact src_sdc_add_observations_is_model. Qed.
+Print Assumptions C04_model_is_source_sdc_add_observations.
+
+(* the public entry point: translated guard around the translated _add_observations = sdc_add *)
+Theorem C04_model_is_source_sdc_add : forall orc r32 st rows,
+  src_add_observations legacy (src_sdc_add_observations orc r32) (legacy_of st) rows
+  = dor t <- sdc_add orc r32 st rows; Ok (legacy_of t).
+Proof. exact src_sdc_add_is_model. Qed.
+Print Assumptions C04_model_is_source_sdc_add.
+
+(* create_single_treatment_effect_map on the three columns of any row list *)
+Theorem C04_model_is_source_create_single_treatment_effect_map : forall (arity : nat) (rows : list trow),
+  src_create_single_treatment_effect_map oval oone omean arity (map t_sample rows) (map t_treats rows) (map t_obs rows)
+  = if Z.of_nat arity <? 2 then Err 4 else Ok (single_effect_map arity rows).
+Proof. exact src_single_effect_map_is_model. Qed.
+Print Assumptions C04_model_is_source_create_single_treatment_effect_map.
+
+(* the same translated function at exact rationals (O = Qc, one = 1, mean = qmean) is C20's column-level model
+   Synergy.effect_map, on every n x arity id array with two 1-d arrays of n entries (C20's model also covers
+   misaligned arrays = numpy's IndexError, which the translation's mask primitive does not represent; it tags the
+   arity ValueError 1 where the C04 models use 4) *)
+Theorem C04_model_is_source_create_single_treatment_effect_map_c20 :
+  forall (arity : nat) (sids : list Z) (tids : list (list Z)) (obs : list Qc),
+  Forall (fun row => length row = arity) tids -> length sids = length tids -> length obs = length tids ->
+  src_create_single_treatment_effect_map Qc 1%Qc qmean arity sids tids obs
+  = if Nat.ltb arity 2 then Err 4 else Synergy.effect_map arity sids tids obs.
+Proof. exact src_single_effect_map_is_c20_model. Qed.
+Print Assumptions C04_model_is_source_create_single_treatment_effect_map_c20.
+
+(* SparseDrugComboInteraction._add_observations = the interaction model with ALL repair switches true *)
+Theorem C04_model_is_source_interaction_add_observations : forall orc r32 (arity : nat) (st : istate) (rows : list trow),
+  src_int_add_observations orc r32 arity (i_lookup st) (legacy_of (i_train st)) rows
+  = dor s <- int_inner orc r32 true true true st arity rows; Ok (i_lookup s, legacy_of (i_train s)).
+Proof. exact src_int_add_observations_is_model. Qed.
+Print Assumptions C04_model_is_source_interaction_add_observations.
+
+Theorem C04_model_is_source_interaction_add : forall orc r32 arity st rows,
+  src_add_observations (lookup * legacy)
+    (fun self d => src_int_add_observations orc r32 arity (fst self) (snd self) d)
+    (i_lookup st, legacy_of (i_train st)) rows
+  = dor s <- int_add orc r32 true true true st arity rows; Ok (i_lookup s, legacy_of (i_train s)).
+Proof. exact src_int_add_is_model. Qed.
+Print Assumptions C04_model_is_source_interaction_add.
+
+(* the translation determines the switches: no other variant of the interaction model equals the source *)
+Theorem C04_source_variant_unique : forall fixed_mask guard_neg guard_nan : bool,
+  (forall orc r32 arity st rows,
+     src_int_add_observations orc r32 arity (i_lookup st) (legacy_of (i_train st)) rows
+     = dor s <- int_inner orc r32 fixed_mask guard_neg guard_nan st arity rows; Ok (i_lookup s, legacy_of (i_train s)))
+  <-> (fixed_mask = true /\ guard_neg = true /\ guard_nan = true).
+Proof. exact int_source_variant_unique. Qed.
+Print Assumptions C04_source_variant_unique.
+
+(* non-vacuity: the translated functions run on the witness rows; the second call continues the row numbering *)
+Example C04_source_example :
+  (match src_add_observations legacy (src_sdc_add_observations orc_id OFin) (legacy_of []) (filter t_mask w_rows) with
+   | Ok w => Some (lg_cline w, lg_dd1 w, lg_dd2 w, lg_dd1_idxs w)
+   | Err _ => None
+   end) = Some ([0; 0; 0; 0], [0; -1; 0; -1], [-1; 1; 1; -1], [(0, [0; 2]); (-1, [1; 3])])
+  /\ (match (dor w <- src_sdc_add_observations orc_id OFin (legacy_of []) (filter t_mask w_rows);
+             src_sdc_add_observations orc_id OFin w (filter t_mask w_rows)) with
+      | Ok w => Some (lg_dd1_idxs w)
+      | Err _ => None
+      end) = Some [(0, [0; 2; 4; 6]); (-1, [1; 3; 5; 7])]
+  /\ src_add_observations legacy (src_sdc_add_observations orc_id OFin) (legacy_of []) w_rows = Err 1
+  /\ (match src_int_add_observations orc_id OFin 2 [] (legacy_of []) (filter t_mask w_rows) with
+      | Ok p => Some (map fst (fst p), lg_cline (snd p), lg_dd1 (snd p), lg_dd2 (snd p))
+      | Err _ => None
+      end) = Some ([(0, -1); (0, 0); (0, 1)], [0], [0], [1]).
 Proof. vm_compute. repeat split; reflexivity. Qed.
